@@ -18,6 +18,9 @@ func (vc *VC) objsBelow(v SVal, bound string) {
 // (back edges excluded): the same bound if they agree, else a fresh constant above all of them.
 func (vc *VC) blockBound(b *ssa.BasicBlock) {
 	if b.Index == 0 {
+		if b.Parent() != vc.fn {
+			return // entry of a helper executed in place: the caller's bound stands
+		}
 		vc.bound = "$A0"
 		return
 	}
